@@ -1,0 +1,16 @@
+//go:build verif
+
+package multiterm
+
+// Verification hooks (build tag `verif` only): the terminal size and the auto-trim switch are
+// otherwise captured once from a real TTY in init() and cannot be controlled by a harness.
+
+// VerifSetTermSize overrides the terminal size captured at start-up.
+func VerifSetTermSize(rows, cols int) {
+	computedRows, computedCols = rows, cols
+}
+
+// VerifSetAutoTrim overrides AutoTrim.
+func VerifSetAutoTrim(on bool) {
+	AutoTrim = on
+}
